@@ -387,3 +387,22 @@ package bgv
 //@   case len(op0.Value) == 2 && len(opOut.Value) == 2
 //@   ensures implies(isnil(err) && old(len(opOut.Value)) == 3, len(opOut.Value) == 3 && val(opOut.Value[2]) == old(val(opOut.Value[2])))
 //@   ensures implies(isnil(err) && old(len(opOut.Value)) == 2, len(opOut.Value) == 2)
+
+// ---- ciphertext * ciphertext WITH relinearisation (BGV style): the degree-2 tensor times T, whose third
+// ---- component goes through the gadget product with the relinearisation key of the key set (both NAMED)
+// ---- and is added to the first two; the output has degree 1
+//@ afunc Evaluator.MulRelin#ct
+//@   property C05
+//@   dyn op1 *rlwe.Ciphertext
+//@   case len(op0.Value) == 2 && len(op1.Value) == 2 && len(opOut.Value) == 2 && !eval.ScaleInvariant
+//@   case len(op0.Value) == 2 && len(op1.Value) == 2 && len(opOut.Value) == 3 && !eval.ScaleInvariant
+//@   case len(op0.Value) == 2 && len(op1.Value) == 2 && !eval.ScaleInvariant ; alias opOut = op1
+//@   case len(op0.Value) == 2 && len(op1.Value) == 2 && !eval.ScaleInvariant ; alias opOut = op0
+//@   let T = uf_rnsval(contentid(eval.tMontgomery))
+//@   let g = uf_rlk(contentid(eval.Evaluator.EvaluationKeySet))
+//@   let c2 = T * old(val(op0.Value[1])) * old(val(op1.Value[1]))
+//@   requires uf_rnsmexp(contentid(eval.tMontgomery)) == 2
+//@   requires isntt(op0.Value[0]) && isntt(op0.Value[1]) && isntt(op1.Value[0]) && isntt(op1.Value[1]) && mexp(op0.Value[0]) == 0 && mexp(op0.Value[1]) == 0 && mexp(op1.Value[0]) == 0 && mexp(op1.Value[1]) == 0
+//@   ensures implies(isnil(err), len(opOut.Value) == 2)
+//@   ensures implies(isnil(err), val(opOut.Value[0]) == T * old(val(op0.Value[0])) * old(val(op1.Value[0])) + uf_gp0(c2, g))
+//@   ensures implies(isnil(err), val(opOut.Value[1]) == T * old(val(op0.Value[0])) * old(val(op1.Value[1])) + T * old(val(op0.Value[1])) * old(val(op1.Value[0])) + uf_gp1(c2, g))
